@@ -437,6 +437,45 @@ theorem unregister_inv_succ {fuel : Nat} (hdt : IDt (deleteThread fuel)) (hswf :
 
 /-! ### `UnregisterAll` -/
 
+/-- the state of `UnregisterAll` after both tables are updated, before any waiter is told: the invariant with the
+    waiters to be destroyed exempt -/
+theorem uaRest_mid {C W : List Nat} {s : State} (h : Inv C W none s) (src : Nat) :
+    Inv C (((uaTargets s src).2.reverse).map (·.1) ++ W) none
+      ({ ({ s with waitFor := (Tbl.multiPurge s.alive s.waitFor src (Tbl.keysOf s.notify src) []).1 } : State) with
+        notify := Tbl.removeOwner s.notify src }) := by
+  have hmir : TblMirror (Tbl.removeOwner s.notify src)
+      (Tbl.multiPurge s.alive s.waitFor src (Tbl.keysOf s.notify src) []).1 :=
+    h.tab.mir.multiPurge_removeOwner h.n.wfN s.alive src [] (fun n l hl => h.waiters_alive src n l hl)
+  have hWF := Tbl.multiPurge_WF s.alive src (Tbl.keysOf s.notify src) s.waitFor [] h.n.wfW
+  have h1 : Inv C (((uaTargets s src).2.reverse).map (·.1) ++ W) none
+      ({ ({ s with waitFor := (Tbl.multiPurge s.alive s.waitFor src (Tbl.keysOf s.notify src) []).1 } : State) with
+        notify := Tbl.removeOwner s.notify src }) := by
+    apply h.setTables _ _ (h.n.wfN.removeOwner _) hWF (Tbl.Sub.removeOwner _ _)
+      (Tbl.Sub.multiPurge _ _ _ _ _) hmir (fun x m => List.mem_append_right _ m)
+    intro x th hx hw ho
+    by_cases hno : Tbl.hasOwner (Tbl.multiPurge s.alive s.waitFor src (Tbl.keysOf s.notify src) []).1 x = true
+    · exact Or.inr hno
+    · left
+      apply List.mem_append_left
+      -- some entry of `x` changed: `x` waited for `src` under that name
+      obtain ⟨n0, hn0⟩ := (h.n.wfW.hasOwner_iff x).1 ho
+      have hall : Tbl.getD (Tbl.multiPurge s.alive s.waitFor src (Tbl.keysOf s.notify src) []).1 (x, n0) = [] := by
+        have : Tbl.hasOwner (Tbl.multiPurge s.alive s.waitFor src (Tbl.keysOf s.notify src) []).1 x = false := by
+          simpa using hno
+        exact (hWF.hasOwner_false_iff x).1 this n0
+      rw [Tbl.multiPurge_getD] at hall
+      split at hall
+      · rename_i hc
+        obtain ⟨⟨e, he, he1, he2⟩, _⟩ := hc
+        simp only at he1 he2
+        have hk := (h.n.wfN.mem_keysOf_iff src e.1 e.2).1 he
+        have hxl : x ∈ Tbl.getD s.notify (src, n0) := by rw [← he1, hk.1]; exact he2
+        have hsx := (h.tab.mir.mem_iff src n0 x).1 hxl
+        have := uaTargets_complete s src h.n.wfN n0 x hxl (h.waiters_alive src n0 x hxl) hsx
+        exact List.mem_map.2 ⟨(x, n0), List.mem_reverse.2 this, rfl⟩
+      · exact absurd hall hn0
+  exact h1
+
 theorem uaRest_inv {fuel : Nat} (hswf : ISwf (stoppedWaitFor fuel)) (hsn : ISn (stoppedNotify fuel))
     {C W : List Nat} {s : State} (h : Inv C W none s) (src : Nat) :
     Ok (uaRest (stoppedWaitFor fuel) (stoppedNotify fuel) s src)
@@ -448,37 +487,7 @@ theorem uaRest_inv {fuel : Nat} (hswf : ISwf (stoppedWaitFor fuel)) (hsn : ISn (
     exact Ok.pure ⟨h, by simpa using hno⟩
   · simp only [killLoop]
     have hfr := uaTargets_frame s src
-    have hmir : TblMirror (Tbl.removeOwner s.notify src)
-        (Tbl.multiPurge s.alive s.waitFor src (Tbl.keysOf s.notify src) []).1 :=
-      h.tab.mir.multiPurge_removeOwner h.n.wfN s.alive src [] (fun n l hl => h.waiters_alive src n l hl)
-    have hWF := Tbl.multiPurge_WF s.alive src (Tbl.keysOf s.notify src) s.waitFor [] h.n.wfW
-    have h1 : Inv C (((uaTargets s src).2.reverse).map (·.1) ++ W) none
-        ({ ({ s with waitFor := (Tbl.multiPurge s.alive s.waitFor src (Tbl.keysOf s.notify src) []).1 } : State) with
-          notify := Tbl.removeOwner s.notify src }) := by
-      apply h.setTables _ _ (h.n.wfN.removeOwner _) hWF (Tbl.Sub.removeOwner _ _)
-        (Tbl.Sub.multiPurge _ _ _ _ _) hmir (fun x m => List.mem_append_right _ m)
-      intro x th hx hw ho
-      by_cases hno : Tbl.hasOwner (Tbl.multiPurge s.alive s.waitFor src (Tbl.keysOf s.notify src) []).1 x = true
-      · exact Or.inr hno
-      · left
-        apply List.mem_append_left
-        -- some entry of `x` changed: `x` waited for `src` under that name
-        obtain ⟨n0, hn0⟩ := (h.n.wfW.hasOwner_iff x).1 ho
-        have hall : Tbl.getD (Tbl.multiPurge s.alive s.waitFor src (Tbl.keysOf s.notify src) []).1 (x, n0) = [] := by
-          have : Tbl.hasOwner (Tbl.multiPurge s.alive s.waitFor src (Tbl.keysOf s.notify src) []).1 x = false := by
-            simpa using hno
-          exact (hWF.hasOwner_false_iff x).1 this n0
-        rw [Tbl.multiPurge_getD] at hall
-        split at hall
-        · rename_i hc
-          obtain ⟨⟨e, he, he1, he2⟩, _⟩ := hc
-          simp only at he1 he2
-          have hk := (h.n.wfN.mem_keysOf_iff src e.1 e.2).1 he
-          have hxl : x ∈ Tbl.getD s.notify (src, n0) := by rw [← he1, hk.1]; exact he2
-          have hsx := (h.tab.mir.mem_iff src n0 x).1 hxl
-          have := uaTargets_complete s src h.n.wfN n0 x hxl (h.waiters_alive src n0 x hxl) hsx
-          exact List.mem_map.2 ⟨(x, n0), List.mem_reverse.2 this, rfl⟩
-        · exact absurd hall hn0
+    have h1 := uaRest_mid h src
     have hown1 : Tbl.hasOwner (Tbl.removeOwner s.notify src) src = false := hasOwner_removeOwner_self h.n.wfN src
     have P := presAll fuel
     rw [hfr]
